@@ -193,6 +193,23 @@ def build_target(spec: dict):
             h = (h + h.conj().T) * 0.01
             w, v = np.linalg.eigh(h)
             return (v * np.exp(1j * w)) @ v.conj().T
+        if gen == 'qperm':
+            # local single-qudit unitaries followed by a relabelling of
+            # the qudits (a cyclic shift): cheapest with an output
+            # permutation that is not an involution
+            loc = np.eye(1, dtype=complex)
+            for _ in range(n):
+                z = (rs.randn(d, d) + 1j * rs.randn(d, d))
+                q, r = np.linalg.qr(z)
+                loc = np.kron(loc, q)
+            shift = [(i + 1) % n for i in range(n)]
+            P = np.zeros((dim, dim))
+            for x in range(dim):
+                digits = [(x // d ** (n - 1 - i)) % d for i in range(n)]
+                y = sum(digits[shift[i]] * d ** (n - 1 - i)
+                        for i in range(n))
+                P[y, x] = 1
+            return P @ loc
         if gen == 'circ':
             cs = gen_circuit(random.Random(spec.get('seed', 0)), n, 6,
                              barriers=False, blocks=False)
